@@ -77,12 +77,16 @@ Inductive ccase :=
   (* server-alias through the real pipeline: named hosts (hostname, alias), the backend of
      the root path of every host, and per name the backend that answers http://name/ *)
 | CAlias (id : N) (visit : list (string * string)) (roots : list (string * string))
-         (queries : list (string * option string)).
+         (queries : list (string * option string))
+  (* tcp-services ConfigMap through the real pipeline: the data, the values whose service and
+     port exist, and per port number the value that configured it (if any) *)
+| CTcp (id : N) (visit : list (string * string)) (valid_values : list string)
+       (queries : list (Z * option string)).
 
 Definition case_id (c : ccase) : N :=
   match c with
   | CSort i _ _ | CKeys i _ _ _ | CMapper i _ _ _ _ _ | CHosts i _ _ _
-  | CAlloc i _ _ _ | COAuth i _ _ | CAlias i _ _ _ => i
+  | CAlloc i _ _ _ | COAuth i _ _ | CAlias i _ _ _ | CTcp i _ _ _ => i
   end.
 
 Definition mk_ing (ns name : string) (stamp : Z) : ingress :=
@@ -140,6 +144,9 @@ Definition case_ok (c : ccase) : bool :=
                                   | Some h => assoc h roots
                                   | None => assoc (fst q) roots
                                   end) (snd q)) queries
+  | CTcp _ visit valid_values queries =>
+      forallb (fun q => ostr_eqb (option_map snd (tcp_owner (fun v => existsb (String.eqb v) valid_values) visit (fst q)))
+                                 (snd q)) queries
   end.
 
 Definition mismatches (cs : list ccase) : list N :=
